@@ -443,6 +443,18 @@ def gen_cases(rng, tier):
     for k in range({"quick": 150, "thorough": 2500, "search": 200}[tier]):
         c = _gen_access(rng, tag="prog-")
         c["op"] = "access_prog"
+        if k % 6 == 5:
+            # 4..6 exclude files (the other generators stop at 3): every file of a long `-x` list must count
+            names_k = [q[0] for q in c["in"]["seqs"]]
+            seqs_k = [q[1] for q in c["in"]["seqs"]]
+            beds_k = list(c["in"]["beds"])
+            while len(beds_k) < 4:
+                beds_k += _gen_beds(rng, names_k, seqs_k) or [[]]
+            c["in"]["beds"] = beds_k[:6]
+            c["in"]["bedfmt"] = [rng.choice(BEDFMTS) for _ in c["in"]["beds"]]
+            c["tag"] = "prog-manyfiles"
+            if "gap" in c["in"]:
+                c["in"]["gap"] = _gen_gap(rng, seqs_k, names_k, c["in"]["beds"])
         if k % 25 == 24:
             c["tag"] = "malformed-noheader-prog"
             c["in"]["text"] = rng.choice(["ACGT\n", "N\n", "ANA\n"]) + c["in"]["text"]
